@@ -102,11 +102,14 @@ def setup(ctx):
     # "never forms its result from memory it did not initialise": ASan does not see uninitialised reads, so the same calls run
     # twice on the ordinary build in fresh workers whose heaps are pre-dirtied and perturbed with different bytes
     un = {}
-    for pb in PERTURBS:
-        rr = [dict(r, predirty=pb) for r in reqs]
+    for k, pb in enumerate(PERTURBS):
+        # the second run also visits the calls in the opposite order: whatever a kernel keeps from one call to the next (a
+        # static scratch buffer, a cache) then differs as well
+        order = list(reqs) if k == 0 else list(reversed(reqs))
+        rr = [dict(r, predirty=pb) for r in order]
         for s in range(0, len(rr), 400):
             res = isolate.run_batch(ctx.lib, rr[s:s + 400], perturb=pb, timeout_per_call=60)
-            for r, o in zip(reqs[s:s + 400], res):
+            for r, o in zip(order[s:s + 400], res):
                 un.setdefault(r["id"], {})[pb] = o
     ctx.c10_uninit = un
     ctx.stats["heap_perturbation_calls"] = len(PERTURBS) * len(reqs)
